@@ -164,6 +164,8 @@ PLANS["C06"] = {
         # multi-page collections: bulk operations, DropIndex / CreateIndex over hundreds of entries
         T("bulk", "bulk", (24, 240), ["InvAudit"], backends="bolt,badger", chunk=3, heap="6g"),
         EDG("edges", ["InvAudit"], states=(30, 0), reads=(1, 1), writes=(25, 60)),
+        # a batch beyond the store's transaction limit that fails late: counts, documents and entries stay consistent
+        T("huge", "huge", (2, 8), ["InvErrNoTrace", "InvAudit"], backends="rotate", chunk=1, heap="8g"),
         KV_LAWS, KV_FIXEDLEN, KV_APA, KV_KEYS,
     ],
 }
@@ -304,6 +306,8 @@ PLANS["C15"] = {
         T("audit3", "audit", (20, 500), ["InvBackendsAgree", "InvAuditAgree"], backends="bolt,badger,badgermem", chunk=8),
         T("bulk3", "bulk", (12, 120), ["InvBackendsAgree", "InvAuditAgree"], backends="bolt,badger", chunk=3, heap="6g"),
         T("sort3", "sort", (20, 500), ["InvBackendsAgree", "InvValue"], backends="bolt,badger,badgermem", chunk=8),
+        # documents from a few bytes to 70 KB on the three backends at once
+        T("pads3", "pads", (10, 200), ["InvBackendsAgree", "InvAuditAgree", "InvOutcome"], backends="bolt,badger,badgermem", chunk=5, heap="6g"),
         # _expiresAt a moment ahead of the wall clock, which then passes it: nothing may expire on any backend
         T("expiry3", "expiry", (3, 12), ["InvBackendsAgree", "InvAuditAgree", "InvOutcome", "InvValue", "InvAudit"],
           backends="bolt,badger,badgermem", chunk=3),
